@@ -2,6 +2,7 @@ package shapesdesc
 
 import (
 	"fmt"
+	"strings"
 
 	"github.com/cosmos/cosmos-proto/internal/verifsim/simhook"
 	"google.golang.org/protobuf/proto"
@@ -30,7 +31,9 @@ type RandomOpts struct {
 const RndGoPrefix = "github.com/cosmos/cosmos-proto/internal/verifsim/rnd/"
 
 var nestedNamePool = []string{"Leaf", "Inner", "Node", "Item", "Leaf", "Data"}
-var reservedWords = []string{"type", "descriptor", "range", "get", "set", "has", "clear", "new", "interface", "mutable", "new_field", "which_oneof", "is_valid", "proto_methods", "get_unknown", "set_unknown", "reset", "string", "proto_message", "proto_reflect"}
+var reservedWords = []string{"type", "descriptor", "range", "get", "set", "has", "clear", "new", "interface", "mutable", "new_field", "which_oneof", "is_valid", "proto_methods", "get_unknown", "set_unknown", "reset", "string", "proto_message", "proto_reflect",
+	// names that only collide after the generator's own renaming (Type -> Type_)
+	"type_", "get_", "descriptor_", "range_", "set_"}
 var oneofSafeScalars = []string{"double", "float", "int32", "int64", "uint32", "uint64", "fixed32", "fixed64", "sfixed32", "sfixed64", "bool", "string", "bytes"}
 var mapKeyScalars = keyTypes
 
@@ -352,8 +355,10 @@ func (g *randomGen) fillMsg(b *msgBuilder, file, depth int, proto2 bool) {
 	name := func(i int) string {
 		for tries := 0; ; tries++ {
 			n := g.fieldName(i + tries*100)
-			if !usedNames[n] {
-				usedNames[n] = true
+			// proto3 rejects fields whose JSON names collide (type / type_)
+			norm := strings.ToLower(strings.ReplaceAll(n, "_", ""))
+			if !usedNames[norm] {
+				usedNames[norm] = true
 				return n
 			}
 		}
